@@ -1,34 +1,59 @@
-(* C13 recorded findings, refuted on the faithful model (never gates a check).
-   If the code is repaired the model changes and these stop compiling. *)
-From Coq Require Import List Arith ZArith Bool.
+(* C13 findings (never gates a check).
+
+   Part 1: REGRESSION statements about the OLD behaviour of the two defects repaired by the
+   fix commits 184d471 and e57b511.  They are stated over the list helpers only ([gather],
+   [select], [single_or]) and over the old rule written out here, so they do not depend on
+   the current model of the repaired code.
+
+   Part 2: refutation witness of the still OPEN finding resample-stale-size-indirect on the
+   faithful model (stops compiling when the code, and with it the model, is repaired). *)
+From Coq Require Import List Arith ZArith Bool Lia.
 Import ListNotations.
 From ND.model Require Import Batch GenComb.
 
-(* F-C13-1: ResampleGenerator(FilterGenerator(leaf)) -- randperm is asked for the filter's STALE
-   .size (3, the construction-time value) and answers with a genuine permutation of range(3), but
-   the filter returned 2 rows: the index vector is out of range, the real call raises IndexError.
-   Full-strength resample statement (any child, rperm a permutation of the child's current
-   .size => rows of this draw) is therefore false. *)
-Theorem C13_resample_over_filter_refuted :
+(* ---- Part 1a: ResampleGenerator used to ask randperm for the STALE size (3) of a filter that
+   returned 2 rows: a genuine permutation of range(3) then indexes out of the draw (IndexError),
+   whereas every index vector below the FRESH size (2) selects rows of the draw. *)
+Definition kept : list Z := select [true; false; true] [10; 11; 12]%Z.
+
+Theorem C13_old_resample_stale_regression :
+  kept = [10; 12]%Z /\
+  NoDup [2; 0; 1] /\ length [2; 0; 1] = 3 /\ gather [2; 0; 1] kept = None /\
+  (forall idx, Forall (fun i => i < length kept) idx -> gather idx kept = Some (map (fun i => nth i kept 0%Z) idx)).
+Proof.
+  repeat split; try reflexivity.
+  - repeat constructor; cbn; intuition discriminate.
+  - intros idx H. unfold gather.
+    assert (E : forallb (fun i => Nat.ltb i (length kept)) idx = true).
+    { apply forallb_forall. intros i Hi. apply Nat.ltb_lt. rewrite Forall_forall in H. apply H. exact Hi. }
+    rewrite E. reflexivity.
+Qed.
+
+(* ---- Part 1b: the old default of TransformGenerator, (lambda x: x)( *xs), accepted exactly one
+   vector; the repaired default returns what it is given for any number of dimensions. *)
+Definition old_transform_default (cs : list (list Z)) : option out :=
+  match cs with [c] => Some (FT, [c]) | _ => None end.
+
+Theorem C13_old_transform_default_regression :
+  old_transform_default [[1; 2; 3]; [4; 5; 6]]%Z = None /\
+  (forall cs, snd (single_or FU cs) = cs).
+Proof.
+  split; [reflexivity|]. intros [|a [|b l]]; reflexivity.
+Qed.
+
+(* ---- Part 2 (OPEN): ResampleGenerator over a combinator ABOVE a filter.  StaticGenerator keeps the
+   construction-time .size (3) of the filter below it although 2 rows were cached; randperm(3)
+   answers with a genuine permutation of range(3); the real call raises IndexError. *)
+Theorem C13_resample_indirect_refuted :
   exists (draw : nat -> nat -> list (list Z)) (mask : nat -> nat -> list bool) (rperm : nat -> nat -> list nat) (g : gen),
-    g = Filter (Leaf 0 3 FT) 0 None true /\
-    length (rperm 0 0) = size_at draw mask rperm (fun _ _ => []) h_tvec h_tmulti g 0 /\
+    g = Static (Filter (Leaf 0 3 FT) 0 None true) /\
+    length (rperm 0 0) = size_at draw mask rperm (fun _ _ => []) h_tvec h_tmulti g 1 /\
     NoDup (rperm 0 0) /\
     sample draw mask rperm (fun _ _ => []) h_tvec h_tmulti g 0 = Some (FT, [[10; 12]]%Z) /\
     sample draw mask rperm (fun _ _ => []) h_tvec h_tmulti (Resample g 0 None false) 0 = None.
 Proof.
   exists (fun _ _ => [[10; 11; 12]]%Z), (fun _ _ => [true; false; true]), (fun _ _ => [2; 0; 1]),
-         (Filter (Leaf 0 3 FT) 0 None true).
+         (Static (Filter (Leaf 0 3 FT) 0 None true)).
   repeat split; try reflexivity.
   repeat constructor; cbn; intuition discriminate.
-Qed.
-
-(* F-C13-2: TransformGenerator(g) with no maps (documented default: identity) on a generator
-   with two dimensions: (lambda x: x)( *xs) raises TypeError. *)
-Theorem C13_transform_default_refuted :
-  exists (draw : nat -> nat -> list (list Z)),
-    sample draw (fun _ _ => []) (fun _ _ => []) (fun _ _ => []) h_tvec h_tmulti (Leaf 0 3 FL) 0 = Some (FL, [[1; 2; 3]; [4; 5; 6]]%Z) /\
-    sample draw (fun _ _ => []) (fun _ _ => []) (fun _ _ => []) h_tvec h_tmulti (TransformN (Leaf 0 3 FL)) 0 = None.
-Proof.
-  exists (fun _ _ => [[1; 2; 3]; [4; 5; 6]]%Z). split; reflexivity.
 Qed.
